@@ -27,6 +27,9 @@ pub enum Meta {
 pub enum Step {
     Schedule { k: usize, delay_over_min: i64, proposer: usize, signed: bool },
     Cancel { k: usize, canceller: usize, signed: bool },
+    /// the proposer schedules a look-alike of op k (same function, arguments, predecessor, salt) whose target is ANOTHER
+    /// contract: it must never stand in for the operation on the controller itself
+    ScheduleDecoy { k: usize, delay_over_min: i64 },
     SelfExec { k: usize, meta: Meta, executor_signs: bool },
     Advance { n: u32 },
 }
@@ -50,6 +53,7 @@ enum S {
 #[derive(Clone, Debug)]
 struct Model {
     st: std::vec::Vec<S>,
+    decoy: std::vec::Vec<S>,
     min: u32,
     now: u32,
     cancellers: std::collections::BTreeSet<usize>,
@@ -122,6 +126,9 @@ impl Check for Controller {
     fn clock_step(&self, n: u32) -> Option<Step> {
         Some(Step::Advance { n })
     }
+    fn probes(&self, _prop: &str) -> std::vec::Vec<&'static str> {
+        vec!["probe.decoy_next_to_pending_original", "probe.decoy_without_original", "probe.self_admin_with_only_the_decoy_ready"]
+    }
     fn dup_ok(&self, _s: &Step) -> bool {
         true
     }
@@ -132,14 +139,15 @@ impl Check for Controller {
         let nops = 2 + rng.below(3) as usize;
         let cfg = Cfg { start_ledger: 2 + rng.below(100_000) as u32, min_delay: 1 + rng.below(20) as u32, with_executors: rng.chance(60), delays: (0..nops).map(|k| [0u32, 3, 40, 7, 1][k % 5] + rng.below(2) as u32 * 100).collect(), kinds: (0..nops).map(|_| match rng.below(10) { 0..=5 => 0, 6..=7 => 1, _ => 2 }).collect() };
         let nsteps = if tier == Tier::Quick { 20 + rng.below(30) } else { 20 + rng.below(60) } as usize;
-        let mut m = Model { st: vec![S::Unset; nops], min: cfg.min_delay, now: cfg.start_ledger, cancellers: [1usize].into_iter().collect() };
+        let mut m = Model { st: vec![S::Unset; nops], decoy: vec![S::Unset; nops], min: cfg.min_delay, now: cfg.start_ledger, cancellers: [1usize].into_iter().collect() };
         let mut steps = vec![];
         for _ in 0..nsteps {
             let k = rng.below(nops as u64) as usize;
             let s = match rng.below(100) {
                 0..=24 => Step::Schedule { k, delay_over_min: match rng.below(5) { 0 => -1, 1 => 0, _ => rng.below(5) as i64 }, proposer: if rng.chance(88) { 1 } else { 0 }, signed: !rng.chance(6) },
-                25..=30 => Step::Cancel { k, canceller: match rng.below(10) { 0 => 0, 1..=3 => 3, _ => 1 }, signed: !rng.chance(6) },
-                31..=74 => {
+                25..=27 => Step::ScheduleDecoy { k, delay_over_min: rng.below(3) as i64 },
+                28..=32 => Step::Cancel { k, canceller: match rng.below(10) { 0 => 0, 1..=3 => 3, _ => 1 }, signed: !rng.chance(6) },
+                33..=74 => {
                     let meta = match rng.below(12) { 0..=4 => Meta::Honest, 5 => Meta::Empty, 6 => Meta::Void, 7 => Meta::WrongSalt, 8 => Meta::WrongPred, 9 => Meta::NoExecutor, 10 => Meta::StrangerExecutor, _ => Meta::Extra };
                     Step::SelfExec { k, meta, executor_signs: !rng.chance(10) }
                 }
@@ -159,6 +167,12 @@ impl Check for Controller {
                 Step::Cancel { k, canceller, signed } => {
                     if *signed && m.cancellers.contains(canceller) && matches!(m.st[*k], S::Pending(_)) {
                         m.st[*k] = S::Unset;
+                    }
+                }
+                Step::ScheduleDecoy { k, delay_over_min } => {
+                    let d = (m.min as i64 + delay_over_min).max(0) as u32;
+                    if m.decoy[*k] == S::Unset {
+                        m.decoy[*k] = S::Pending(m.now.saturating_add(d));
                     }
                 }
                 Step::SelfExec { k, meta, executor_signs } => {
@@ -189,7 +203,10 @@ impl Check for Controller {
             }
         };
         let ids: std::vec::Vec<BytesN<32>> = (0..cfg.delays.len()).map(|k| c.hash_operation(&id, &fname_of(k), &args_of(k), &zero, &salt(k))).collect();
-        let mut m = Model { st: vec![S::Unset; cfg.delays.len()], min: cfg.min_delay, now: cfg.start_ledger, cancellers: [1usize].into_iter().collect() };
+        // the decoys' target: some other contract (never invoked)
+        let other = a(3);
+        let decoy_ids: std::vec::Vec<BytesN<32>> = (0..cfg.delays.len()).map(|k| c.hash_operation(&other, &fname_of(k), &args_of(k), &zero, &salt(k))).collect();
+        let mut m = Model { st: vec![S::Unset; cfg.delays.len()], decoy: vec![S::Unset; cfg.delays.len()], min: cfg.min_delay, now: cfg.start_ledger, cancellers: [1usize].into_iter().collect() };
         for (i, s) in steps.iter().enumerate() {
             w.set_auth(&[]);
             let before = w.storage_digest(&[&id]);
@@ -229,7 +246,27 @@ impl Check for Controller {
                         m.st[*k] = S::Unset;
                     }
                 }
+                Step::ScheduleDecoy { k, delay_over_min } => {
+                    let d = (m.min as i64 + delay_over_min).max(0) as u32;
+                    let args: Vec<Val> = (other.clone(), fname_of(*k), args_of(*k), zero.clone(), salt(*k), d, a(1)).into_val(e);
+                    w.set_auth(&[(1, Inv::new(&id, "schedule_op", args))]);
+                    let got = c.try_schedule_op(&other, &fname_of(*k), &args_of(*k), &zero, &salt(*k), &d, &a(1)).is_ok();
+                    let exp = m.decoy[*k] == S::Unset;
+                    st.tx("schedule_decoy", got);
+                    if got {
+                        st.hit(if matches!(m.st[*k], S::Pending(_)) { "probe.decoy_next_to_pending_original" } else { "probe.decoy_without_original" });
+                    }
+                    if got != exp {
+                        return Err(violation("payload.exactly_that_call", "schedule_decoy", i, format!("{s:?} (same call on another target): real {got} model {exp}; {m:?}")));
+                    }
+                    if got {
+                        m.decoy[*k] = S::Pending(m.now.saturating_add(d));
+                    }
+                }
                 Step::SelfExec { k, meta, executor_signs } => {
+                    if matches!(m.decoy[*k], S::Pending(r) if r <= m.now) && !matches!(m.st[*k], S::Pending(r) if r <= m.now) {
+                        st.hit("probe.self_admin_with_only_the_decoy_ready");
+                    }
                     // anyone (actor 0) calls update_delay(d) directly, attaching an entry for the controller's own address
                     let good = OperationMeta { predecessor: zero.clone(), salt: salt(*k), executor: Some(a(2)) };
                     let metas: Option<Vec<OperationMeta>> = match meta {
@@ -301,6 +338,10 @@ impl Check for Controller {
                 if (done, pending) != want {
                     return Err(violation("state.model_eq", "op", i, format!("op {k}: done/pending {done}/{pending}, model {:?}", m.st[k])));
                 }
+                let (done, pending) = (c.is_operation_done(&decoy_ids[k]), c.is_operation_pending(&decoy_ids[k]));
+                if (done, pending) != (false, matches!(m.decoy[k], S::Pending(_))) {
+                    return Err(violation("payload.exactly_that_call", "decoy", i, format!("look-alike of op {k} on another target: done/pending {done}/{pending}, model {:?} after {s:?}", m.decoy[k])));
+                }
             }
             for x in 0..4usize {
                 if c.has_role(&a(x), &canceller_role).is_some() != m.cancellers.contains(&x) {
@@ -310,7 +351,7 @@ impl Check for Controller {
             if c.get_admin() != Some(id.clone()) {
                 return Err(violation("self_admin.needs_ready_op_consumed", "admin", i, "admin changed".into()));
             }
-            st.state(&(m.st.iter().map(|x| match x { S::Unset => 0u8, S::Done => 3, S::Pending(r) => if *r > m.now { 1 } else { 2 } }).collect::<std::vec::Vec<_>>(), cfg.with_executors, cfg.kinds.clone(), m.cancellers.clone()));
+            st.state(&(m.st.iter().map(|x| match x { S::Unset => 0u8, S::Done => 3, S::Pending(r) => if *r > m.now { 1 } else { 2 } }).collect::<std::vec::Vec<_>>(), cfg.with_executors, cfg.kinds.clone(), m.cancellers.clone(), m.decoy.iter().map(|x| match x { S::Pending(r) => if *r > m.now { 1u8 } else { 2 }, _ => 0 }).collect::<std::vec::Vec<_>>()));
         }
         Ok(())
     }
